@@ -20,6 +20,8 @@ inline void check_range_doesnt_cross_app_sbx_boundary(const void* ptr,
     ptr_start_val,
     "Performing memory operation memset/memcpy on a null pointer");
   auto ptr_end_val = ptr_start_val + size - 1;
+  detail::dynamic_check(size == 0 || ptr_end_val >= ptr_start_val,
+                        "range wraps around the address space");
 
   auto ptr_start = reinterpret_cast<void*>(ptr_start_val);
   auto ptr_end = reinterpret_cast<void*>(ptr_end_val);
